@@ -126,51 +126,52 @@ Proof. intros Ha Hc H. destruct (add_gen_int false a c r Ha Hc H) as (_ & Hw & _
 Theorem sub_wf a c r : dwf a -> dwf c -> sub a c = Ok r -> dwf r.
 Proof. intros Ha Hc H. destruct (add_gen_int true a c r Ha Hc H) as (_ & Hw & _). exact Hw. Qed.
 
-(* Totality on moderate operands: exponents within [-E, E] and coefficients below 10^N with
-   E + N <= 100000 never fail.  (Stated for the bound used by credit amounts and coin amounts.) *)
-Theorem add_gen_total subtract x y : dwf x -> dwf y ->
-  -50000 <= dexp x <= 40000 -> -50000 <= dexp y <= 40000 ->
-  num_digits (dcoef x) <= 5000 -> num_digits (dcoef y) <= 5000 ->
+(* Totality on moderate operands: with exponents within [-E, E] and coefficients of at most N
+   digits, E <= 50000 and E + N <= 100000, addition and subtraction never fail. *)
+Theorem add_gen_total E N subtract x y : dwf x -> dwf y ->
+  0 <= E <= 50000 -> 1 <= N -> E + N <= 100000 ->
+  - E <= dexp x <= E -> - E <= dexp y <= E ->
+  num_digits (dcoef x) <= N -> num_digits (dcoef y) <= N ->
   exists r, add_gen subtract x y = Ok r.
 Proof.
-  unfold dwf. intros Hx Hy Hex Hey Hnx Hny. unfold add_gen.
-  destruct (Z.abs (dexp x - dexp y) >? max_exponent) eqn:E.
-  { apply Z.gtb_lt in E. unfold max_exponent in E. lia. }
-  set (e := Z.min (dexp x) (dexp y)).
+  unfold dwf. intros Hx Hy HE HN HEN Hex Hey Hnx Hny. unfold add_gen.
+  destruct (Z.abs (dexp x - dexp y) >? max_exponent) eqn:E0.
+  { apply Z.gtb_lt in E0. unfold max_exponent in E0. lia. }
+  set (e := Z.min (dexp x) (dexp y)). set (M := Z.max (dexp x) (dexp y)).
   assert (Pa : 0 < 10 ^ (dexp x - e)) by (apply pow10_gt0; lia).
   assert (Pc : 0 < 10 ^ (dexp y - e)) by (apply pow10_gt0; lia).
   set (a := dcoef x * 10 ^ (dexp x - e)). set (cc := dcoef y * 10 ^ (dexp y - e)).
-  (* both aligned coefficients are below 10^95000 *)
-  assert (Hbound : forall c k, 0 <= c -> num_digits c <= 5000 -> 0 <= k <= 90000 -> 0 <= c * 10 ^ k < 10 ^ 95000).
+  set (W := N + M - e).
+  assert (HW : 1 <= W) by (subst W M e; lia).
+  assert (PW : 0 < 10 ^ W) by (apply pow10_gt0; lia).
+  assert (Hbound : forall c k, 0 <= c -> num_digits c <= N -> 0 <= k <= M - e -> 0 <= c * 10 ^ k < 10 ^ W).
   { intros c0 k H0 Hn Hk. assert (Pk : 0 < 10 ^ k) by (apply pow10_gt0; lia).
     destruct (Z.eq_dec c0 0) as [->|Hnz].
-    - rewrite Z.mul_0_l. split; [lia|]. apply pow10_gt0. lia.
+    - rewrite Z.mul_0_l. lia.
     - assert (Hc0 : 0 < c0) by lia. pose proof (num_digits_spec c0 Hc0) as [_ Hs].
       pose proof (num_digits_ge1 c0) as Hge.
       assert (c0 * 10 ^ k < 10 ^ (num_digits c0 + k)) by (rewrite pow10_add by lia; nia).
-      assert (10 ^ (num_digits c0 + k) <= 10 ^ 95000) by (apply pow10_le; lia).
+      assert (10 ^ (num_digits c0 + k) <= 10 ^ W) by (apply pow10_le; subst W; lia).
       split; [nia|lia]. }
-  assert (Ha : 0 <= a < 10 ^ 95000) by (apply Hbound; [exact Hx|exact Hnx|subst e; lia]).
-  assert (Hc : 0 <= cc < 10 ^ 95000) by (apply Hbound; [exact Hy|exact Hny|subst e; lia]).
-  assert (H2 : 2 * 10 ^ 95000 <= 10 ^ 95001).
-  { replace 95001 with (95000 + 1) by reflexivity. rewrite pow10_succ by lia.
-    assert (0 < 10 ^ 95000) by (apply pow10_gt0; lia). lia. }
-  assert (Hfin : forall neg coef, 0 <= coef < 10 ^ 95001 -> exists r, round0 (mkDec neg coef e) = Ok r).
+  assert (Ha : 0 <= a < 10 ^ W) by (apply Hbound; [exact Hx|exact Hnx|subst e M; lia]).
+  assert (Hc : 0 <= cc < 10 ^ W) by (apply Hbound; [exact Hy|exact Hny|subst e M; lia]).
+  assert (H2 : 2 * 10 ^ W <= 10 ^ (W + 1)) by (rewrite pow10_succ by lia; lia).
+  assert (Hfin : forall neg coef, 0 <= coef < 10 ^ (W + 1) -> exists r, round0 (mkDec neg coef e) = Ok r).
   { intros neg coef Hco. eexists. unfold round0. cbn [dexp]. apply set_exponent_ok.
     - cbn [forallb]. unfold exp_in_limits, min_exponent, max_exponent.
-      assert (-50000 <= e <= 40000) by (subst e; lia).
+      assert (- E <= e <= E) by (subst e; lia).
       apply andb_true_iff. split; [apply andb_true_iff; split; apply Z.leb_le; lia|reflexivity].
     - rewrite zsum_single. cbn [dcoef].
-      assert (Hn : num_digits coef <= 95001) by (apply num_digits_le; [exact Hco|lia]).
+      assert (Hn : num_digits coef <= W + 1) by (apply num_digits_le; [exact Hco|lia]).
       pose proof (num_digits_ge1 coef).
-      assert (-50000 <= e <= 40000) by (subst e; lia).
-      unfold min_exponent, max_exponent. lia. }
+      assert (- E <= e <= E) by (subst e; lia). assert (M <= E) by (subst M; lia).
+      unfold min_exponent, max_exponent. subst W. lia. }
   cbv zeta. fold e. fold a. fold cc.
   destruct (Bool.eqb (dneg x) (xorb (dneg y) subtract)).
   - apply Hfin. lia.
   - destruct (a - cc <? 0) eqn:E1; [|destruct (a - cc =? 0) eqn:E2].
     + apply Z.ltb_lt in E1. apply Hfin. lia.
-    + apply Hfin. assert (0 < 10 ^ 95001) by (apply pow10_gt0; lia). lia.
+    + apply Hfin. assert (0 < 10 ^ (W + 1)) by (apply pow10_gt0; lia). lia.
     + apply Z.ltb_ge in E1. apply Hfin. lia.
 Qed.
 
@@ -188,7 +189,7 @@ Theorem safe_sub_nonneg a c r : dwf a -> dwf c -> safe_sub_balance a c = Ok r ->
   (0 <= dval r)%Q /\ (dval r == dval a - dval c)%Q.
 Proof.
   unfold safe_sub_balance, bind. intros Ha Hc H.
-  destruct (add_gen true a c) as [z|] eqn:E; [|discriminate].
+  destruct (add_gen true a c) as [z|] eqn:E; [|discriminate]. cbv beta iota in H.
   destruct (is_negative z) eqn:En; [discriminate|]. injection H as <-.
   destruct (add_gen_int true a c z Ha Hc E) as (_ & Hw & _).
   split; [apply dval_sign; apply not_negative_nonneg; assumption|].
@@ -217,7 +218,7 @@ Theorem safe_sub_negative_error a c : dwf a -> dwf c -> safe_sub_balance a c = E
   (dval a < dval c)%Q.
 Proof.
   unfold safe_sub_balance, bind. intros Ha Hc H.
-  destruct (add_gen true a c) as [z|e] eqn:E.
+  destruct (add_gen true a c) as [z|e] eqn:E; cbv beta iota in H.
   - destruct (is_negative z) eqn:En; [|discriminate].
     pose proof (add_gen_value true a c z Ha Hc E) as Hv.
     destruct (add_gen_int true a c z Ha Hc E) as (_ & Hw & _).
@@ -228,7 +229,7 @@ Proof.
       unfold dwf in Hw. lia. }
     rewrite Hv in Hlt. apply (Qplus_lt_l _ _ (- dval c)).
     setoid_replace (dval c + - dval c)%Q with 0%Q by ring. exact Hlt.
-  - unfold add_gen in E. destruct (_ >? _); [discriminate|]. cbv zeta in E.
+  - injection H as ->. unfold add_gen in E. destruct (_ >? _); [discriminate|]. cbv zeta in E.
     destruct (Bool.eqb _ _); [|destruct (_ <? _); [|destruct (_ =? _)]];
       unfold round0, set_exponent in E; destruct (forallb _ _); try (destruct (_ || _)); congruence.
 Qed.
